@@ -85,6 +85,8 @@ impl Prop for C03 {
             GenSpec::random("trailing", tier.pick(2_000, 100_000)),
             GenSpec::random("random-file", tier.pick(500, 20_000)),
             GenSpec::random("unsupported", tier.pick(900, 45_000)),
+            // one record between 32 KiB and the record limit, as another writer may emit
+            GenSpec::random("big-records", tier.pick(24, 600)),
         ]
     }
     fn run_case(&self, cx: &mut Cx) {
@@ -100,6 +102,13 @@ impl Prop for C03 {
                 let via_file = cx.gen == "random-file";
                 self.check(cx, &ast, &EncOpts::default(), via_file, "random stream");
                 cx.sample(|| json!({"stream_of": format!("{:?}", ast).chars().take(600).collect::<String>()}));
+            }
+            "big-records" => {
+                let (ast, what) = big_record_lib(&mut cx.rng);
+                cx.count(&format!("big_{}_records", what));
+                let via_file = cx.rng.bool();
+                self.check(cx, &ast, &EncOpts::default(), via_file, "one record of 32 KiB..64 KiB");
+                cx.sample(|| json!({"big_record": what}));
             }
             "trailing" => {
                 let ast = rand_lib(&mut cx.rng, &cfg);
